@@ -252,6 +252,7 @@ theorem esc_cmd (fuel : Nat) (ih : Esc fuel) : ∀ s c, Within (loops s.stack) (
       split
       · exact within_finishSimple _ _ _ trivial
       · exact within_finishSimple _ _ _ h1
+    · exact within_finishSimple _ _ _ trivial
   | fundef name body => simp only [execCmd]; exact within_finishSimple _ _ _ trivial
   | expErr => simp only [execCmd, St.expansionError]; split <;> trivial
   | assignErr => simp only [execCmd, St.expansionError]; split <;> trivial
